@@ -466,10 +466,15 @@ def _oracle_curve(args):
         return dA, dB, pubA, pubB, sA, sB
     for dA, dB, pubA, pubB, sA, sB in eclib.pmap(do_ecdh, pairs, workers=4):
         ncalls += 4
-        skA, skB = keys.SigningKey.from_secret_exponent(dA, cv), keys.SigningKey.from_secret_exponent(dB, cv)
         tag = "%s ECDH dA=%d dB=%d " % (cv.name, dA, dB)
-        rec.ev("eq", tag + "public key A (DER)", skA.get_verifying_key().to_der(), pubA)
-        rec.ev("eq", tag + "public key B (DER)", skB.get_verifying_key().to_der(), pubB)
+        try:
+            skA, skB = keys.SigningKey.from_secret_exponent(dA, cv), keys.SigningKey.from_secret_exponent(dB, cv)
+            derA, derB = skA.get_verifying_key().to_der(), skB.get_verifying_key().to_der()
+        except Exception as e:
+            rec.ev("flags", tag + "key generation raised " + eclib.mro(e), [0], [])
+            continue
+        rec.ev("eq", tag + "public key A (DER)", derA, pubA)
+        rec.ev("eq", tag + "public key B (DER)", derB, pubB)
         try:
             e1 = ecdh_mod.ECDH(cv, skA, keys.VerifyingKey.from_der(pubB))
             l1 = e1.generate_sharedsecret_bytes()
@@ -487,8 +492,8 @@ def _oracle_curve(args):
 
     # ---- invalid / mutated points
     d0 = r.randrange(1, n)
-    Q = cv.generator * d0
-    qx, qy = int(Q.x()), int(Q.y())
+    q_raw = eclib.ossl_pub_raw(cv, d0)[0]                      # the valid control point comes from OpenSSL, not from the library
+    qx, qy = int.from_bytes(q_raw[:L], "big"), int.from_bytes(q_raw[L:], "big")
     nts = lambda v: v.to_bytes(L, "big")
     cand = []          # (what, point bytes as handed to the library, X9.62 form for OpenSSL, key)
 
@@ -523,9 +528,7 @@ def _oracle_curve(args):
     add("compressed x without square root", b"\x02" + nts(xx)); add("compressed x without square root (odd)", b"\x03" + nts(xx))
     for o in eclib.shipped():
         if o is not cv and (int(o.curve.p()).bit_length() + 7) // 8 == L:
-            O = o.generator * r.randrange(1, int(o.order))
-            if int(O.x()) < 256 ** L and int(O.y()) < 256 ** L:
-                add("point of %s" % o.name, b"\x04" + nts(int(O.x())) + nts(int(O.y())))
+            add("point of %s" % o.name, b"\x04" + eclib.ossl_pub_raw(o, r.randrange(1, int(o.order)))[0])
     if thorough and L <= 32:
         bits_u, bits_c = range(8 * len(unc)), range(8 * len(comp))
     else:
@@ -553,7 +556,8 @@ def _oracle_curve(args):
             else:
                 got[4] = T
                 got[2] = _aff_add(cv, T, T)
-        S = (int((cv.generator * 5).x()), int((cv.generator * 5).y()))
+        s_raw = eclib.ossl_pub_raw(cv, 5)[0]
+        S = (int.from_bytes(s_raw[:L], "big"), int.from_bytes(s_raw[L:], "big"))
         key = "order-check-reads-y0-as-infinity"
         if 2 in got:
             T2 = got[2]
@@ -598,6 +602,241 @@ def _rescale(PointJacobi, pt, lam):
     return PointJacobi(pt.curve(), lam * lam * x % p, lam * lam * lam * y % p, lam % p, pt.order())
 
 
+# ====================================================================== histories (state kept by the library between calls)
+# Caches / memos make a result depend on what ran earlier in the same process.  Every history below runs in ONE fresh
+# process and revisits the same inputs under another context (other curve, other object state), in both orders.
+def _ecdh_scenarios():
+    """(name, (private key on X?, object curve X?, peer key on X?), call sequence) -- X: this curve, O: another curve"""
+    def ctor(E, X, O, sk, vkX, vkO):
+        return E(X, sk, vkX)
+
+    def set_curve_after_private(E, X, O, sk, vkX, vkO):
+        e = E(X, sk); e.set_curve(O); e.load_received_public_key(vkO); return e
+
+    def peer_bytes_after_set_curve(E, X, O, sk, vkX, vkO):
+        e = E(X, sk); e.set_curve(O); e.load_received_public_key_bytes(vkO.to_string("uncompressed")); return e
+
+    def assign_private(E, X, O, sk, vkX, vkO):
+        e = E(O); e.load_received_public_key(vkO); e.private_key = sk; return e
+
+    def assign_public(E, X, O, sk, vkX, vkO):
+        e = E(X, sk); e.public_key = vkO; return e
+
+    def set_curve_only(E, X, O, sk, vkX, vkO):
+        e = E(X, sk, vkX); e.set_curve(O); return e
+
+    def set_curve_back(E, X, O, sk, vkX, vkO):
+        e = E(X, sk); e.set_curve(O); e.set_curve(X); e.load_received_public_key(vkX); return e
+
+    def no_curve_given(E, X, O, sk, vkX, vkO):
+        e = E(); e.load_private_key(sk); e.load_received_public_key(vkX); return e
+
+    def load_mismatch(E, X, O, sk, vkX, vkO):
+        e = E(X, sk); e.load_received_public_key(vkO); return e
+
+    def private_loaded_after_set_curve(E, X, O, sk, vkX, vkO):
+        e = E(O); e.load_received_public_key(vkO); e.set_curve(X); e.load_private_key(sk); return e
+    return [("ctor", (1, 1, 1), ctor), ("set_curve-after-private", (1, 0, 0), set_curve_after_private),
+            ("peer-bytes-after-set_curve", (1, 0, 0), peer_bytes_after_set_curve), ("assign-private", (1, 0, 0), assign_private),
+            ("assign-public", (1, 1, 0), assign_public), ("set_curve-only", (1, 0, 1), set_curve_only),
+            ("set_curve-back", (1, 1, 1), set_curve_back), ("no-curve-given", (1, 1, 1), no_curve_given),
+            ("load-mismatch", (1, 1, 0), load_mismatch), ("private-loaded-after-set_curve", (1, 1, 0), private_loaded_after_set_curve)]
+
+
+def _ecdh_run(E, scen, X, O, sk, vkX, vkO, how):
+    """-> (secret or 0, "ok" / mro of the exception)"""
+    try:
+        e = scen(E, X, O, sk, vkX, vkO)
+        sec = e.generate_sharedsecret() if how == "int" else int.from_bytes(e.generate_sharedsecret_bytes(), "big")
+        return int(sec), "ok"
+    except Exception as ex:
+        return 0, eclib.mro(ex)
+
+
+def _tiny_history(args):
+    tier, order = args
+    from ..common import repo_on_path
+    repo_on_path()
+    from register_crypto_plugin.ecdsa import keys, ecdh as ecdh_mod
+    from register_crypto_plugin.ecdsa.ellipticcurve import PointJacobi
+    recs = {}
+
+    def rec(nm):
+        return recs.setdefault(nm, Rec())
+
+    def pub(nm, via, a3, fn):
+        try:
+            pt = fn().pubkey.point
+            out, s = (0, int(pt.x()), int(pt.y())), "ok"
+        except Exception as e:
+            out, s = (1, 0, 0), eclib.mro(e)
+        rec(nm).ev("pub", via, a3, out=out, s=s)
+
+    # ---- public keys on two curves over the SAME field: every (x, y) on one curve, then on the other, then again
+    seq = ["T11", "TH2", "T11", "TH2"] if order == 0 else ["TH2", "T11", "TH2", "T11"]
+    for nm in seq:
+        p = TINY[nm][0]
+        c, G, cv = eclib.tiny_curve(nm)
+        for x in range(p + 2):
+            for y in range(p + 2):
+                pub(nm, "point", (x, y, 0), lambda: keys.VerifyingKey.from_public_point(PointJacobi(c, x, y, 1), cv))
+                pub(nm, "raw", (x, y, 0), lambda: keys.VerifyingKey.from_string(bytes([x, y]), cv))
+                pub(nm, "uncompressed", (x, y, 4), lambda: keys.VerifyingKey.from_string(bytes([4, x, y]), cv))
+                pub(nm, "ecdh", (x, y, 0), lambda: _ecdh_load(ecdh_mod, cv, bytes([x, y])))
+            for pre in (2, 3):
+                pub(nm, "compressed", (x, 0, pre), lambda: keys.VerifyingKey.from_string(bytes([pre, x]), cv, valid_encodings=["compressed"]))
+    # ---- ECDH objects whose curve / keys change during their life
+    names = ["T17", "T11", "T13"] if order == 0 else ["T13", "T11", "T17"]
+    for i, nx in enumerate(names):
+        no = names[(i + 1) % len(names)]
+        X, O = eclib.tiny_curve(nx)[2], eclib.tiny_curve(no)[2]
+        for dA in (1, 2, 5):
+            for dB in (1, 3):
+                try:
+                    sk = keys.SigningKey.from_secret_exponent(dA, X)
+                    vkX = keys.SigningKey.from_secret_exponent(dB, X).get_verifying_key()
+                    vkO = keys.SigningKey.from_secret_exponent(dB, O).get_verifying_key()
+                except Exception as ex:
+                    rec(nx).ev("ecdhh", "key-generation", (1, 1, 1), k=dA, m=dB, s="raise:" + eclib.mro(ex))
+                    continue
+                for name, pat, scen in _ecdh_scenarios():
+                    for how in ("int", "bytes"):
+                        sec, s = _ecdh_run(ecdh_mod.ECDH, scen, X, O, sk, vkX, vkO, how)
+                        rec(nx).ev("ecdhh", name + ":" + how, pat, (sec, 0, 0), k=dA, m=dB, s=s)
+    return {nm: r_.evs for nm, r_ in recs.items()}
+
+
+def _oracle_history(args):
+    """shipped curves, one fresh process: the same coordinates / scalars / objects offered to several curves in turn"""
+    tier, wd, order = args
+    from ..common import repo_on_path
+    repo_on_path()
+    from register_crypto_plugin.ecdsa.ellipticcurve import PointJacobi, INFINITY
+    from register_crypto_plugin.ecdsa import keys, ecdh as ecdh_mod
+    r = rng("c17/history/%d" % order)
+    thorough = tier == "thorough"
+    files = eclib.Files(os.path.join(wd, "hist%d" % order))
+    rec = ORec()
+    ncalls = 0
+    blen = lambda cv: (int(cv.curve.p()).bit_length() + 7) // 8
+    groups = {}
+    for cv in eclib.shipped():
+        groups.setdefault(blen(cv), []).append(cv)
+    pairs = [(A, B) for g in groups.values() for A in g for B in g if A is not B]
+    if order:
+        pairs.reverse()
+    pending = []            # (event, OpenSSL query) filled after the library part: keeps the library calls in one sequence
+
+    def verdict(what, ctx, cvq, x962, fn, key=None):
+        try:
+            fn()
+            lv, cls = "accept", ""
+        except Exception as e:
+            lv, cls = "reject", type(e).__name__
+        e = rec.ev("verdict", what, lv, None, cls=cls, ctx=ctx, key=key)
+        pending.append((e, (cvq, x962)))
+
+    for A, B in pairs:
+        L = blen(A)
+        pa, pb = int(A.curve.p()), int(B.curve.p())
+        for _ in range(40):
+            d = r.randrange(1, int(A.order))
+            try:
+                Q = A.generator * d
+                qx, qy = int(Q.x()), int(Q.y())
+            except Exception as ex:
+                rec.ev("flags", "%s: d*G raised %s" % (A.name, eclib.mro(ex)), [0], [])
+                qx = qy = pb
+            if qx < pb and qy < pb:
+                break
+        else:
+            continue
+        raw = qx.to_bytes(L, "big") + qy.to_bytes(L, "big")
+        unc, comp = b"\x04" + raw, bytes([2 + (qy & 1)]) + raw[:L]
+        tag = "history: point d=%d of %s " % (d, A.name)
+        for rnd in (1, 2):
+            verdict(tag + "loaded on its own curve (round %d) [%s]" % (rnd, raw.hex()), "pub-string", A, unc, lambda: keys.VerifyingKey.from_string(raw, A))
+            verdict(tag + "loaded on its own curve from DER (round %d)" % rnd, "pub-der", A, unc, lambda: keys.VerifyingKey.from_der(eclib.spki(A, unc)))
+            t2 = tag + "then offered to %s (round %d) " % (B.name, rnd)
+            verdict(t2 + "from_string raw [%s]" % raw.hex(), "pub-string", B, unc, lambda: keys.VerifyingKey.from_string(raw, B))
+            verdict(t2 + "from_string uncompressed", "pub-string", B, unc, lambda: keys.VerifyingKey.from_string(unc, B))
+            verdict(t2 + "from_der", "pub-der", B, unc, lambda: keys.VerifyingKey.from_der(eclib.spki(B, unc)))
+            verdict(t2 + "from_public_point", "pub-point", B, unc,
+                    lambda: keys.VerifyingKey.from_public_point(PointJacobi(B.curve, qx, qy, 1), B))
+            verdict(t2 + "ECDH.load_received_public_key_bytes", "ecdh-bytes", B, unc, lambda: _ecdh_load(ecdh_mod, B, unc))
+            verdict(t2 + "ECDH.load_received_public_key_der", "pub-der", B, unc, lambda: _ecdh_load_der(ecdh_mod, B, eclib.spki(B, unc)))
+            verdict(t2 + "compressed", "pub-string", B, comp, lambda: keys.VerifyingKey.from_string(comp, B))
+    # ---- ECDH objects whose curve / keys change during their life: no secret across curves
+    cvs = eclib.shipped()
+    byname = {c.name: c for c in cvs}
+    epairs = [(A, B) for A, B in pairs if thorough or A.name in ("NIST256p", "SECP256k1", "BRAINPOOLP192r1", "SECP112r2", "NIST384p")]
+    epairs += [(byname["NIST256p"], byname["NIST192p"]), (byname["NIST192p"], byname["NIST521p"])]
+    derive = []
+    for X, O in epairs:
+        dA, dB = r.randrange(1, int(X.order)), r.randrange(1, min(int(X.order), int(O.order)))
+        try:
+            sk = keys.SigningKey.from_secret_exponent(dA, X)
+            vkX = keys.SigningKey.from_secret_exponent(dB, X).get_verifying_key()
+            vkO = keys.SigningKey.from_secret_exponent(dB, O).get_verifying_key()
+        except Exception as ex:
+            rec.ev("flags", "history: key generation on %s / %s raised %s" % (X.name, O.name, eclib.mro(ex)), [0], [])
+            continue
+        for name, pat, scen in _ecdh_scenarios():
+            for how in ("int", "bytes"):
+                sec, s = _ecdh_run(ecdh_mod.ECDH, scen, X, O, sk, vkX, vkO, how)
+                what = "history: ECDH %s (private key dA=%d on %s, other curve %s, dB=%d), %s" % (name, dA, X.name, O.name, dB, how)
+                if pat == (1, 1, 1):
+                    L = blen(X)
+                    e = rec.ev("eq", what + " = openssl derive", list(sec.to_bytes(L, "big")) if s == "ok" and sec < 256 ** L else [255], None, cls=s)
+                    derive.append((e, X, dA, dB))
+                else:
+                    rec.ev("docreject", what + " -> %s" % (("secret %x" % sec) if s == "ok" else s), "accept" if s == "ok" else "reject", "",
+                           cls=s.split("|")[0], ctx="ecdh-curves")
+    # ---- k*G on A, on B, on A again (same integers)
+    mulq = []
+    for A, B in pairs:
+        for k in (int(A.order) - 1, 2 ** (int(A.order).bit_length() - 1) + 1, r.randrange(1, int(A.order))):
+            for cv in (A, B, A):
+                n = int(cv.order)
+                try:
+                    lib = _raw(cv.generator * k, INFINITY)
+                    cls = ""
+                except Exception as ex:
+                    lib, cls = b"\xff", eclib.mro(ex)
+                e = rec.ev("eqinf", "history: %s k*G k=%d (sequence %s, %s, %s)" % (cv.name, k, A.name, B.name, A.name), lib, None,
+                           zero=int(k % n == 0), cls=cls)
+                mulq.append((e, cv, k % n))
+    # ---- OpenSSL answers
+    uq = sorted({(cvq.name, x962) for _, (cvq, x962) in pending})
+    ans = dict(zip(uq, eclib.pmap(lambda q: eclib.ossl_pubcheck(byname[q[0]], q[1]), uq, workers=8)))
+    ncalls += len(uq)
+    for e, (cvq, x962) in pending:
+        e["ref"] = ans[(cvq.name, x962)]
+    um = sorted({(cv.name, k) for _, cv, k in mulq if k})
+    ansm = dict(zip(um, eclib.pmap(lambda q: eclib.ossl_pub_raw(byname[q[0]], q[1])[0], um, workers=8)))
+    ncalls += len(um)
+    for e, cv, k in mulq:
+        e["ref"] = list(ansm[(cv.name, k)]) if k else []
+    ud = sorted({(X.name, dA, dB) for _, X, dA, dB in derive})
+
+    def dv(q):
+        X = byname[q[0]]
+        fa = files.put(eclib.priv_der_nopub(X, q[1]), "ka")
+        pb = files.put(eclib.ossl_pub_raw(X, q[2])[1], "pb")
+        return eclib.ossl_derive(fa, pb)
+    ansd = dict(zip(ud, eclib.pmap(dv, ud, workers=8)))
+    ncalls += 2 * len(ud)
+    for e, X, dA, dB in derive:
+        e["ref"] = list(ansd[(X.name, dA, dB)])
+    return "history%d" % order, rec.evs, ncalls
+
+
+def _ecdh_load_der(ecdh_mod, cv, data):
+    e = ecdh_mod.ECDH(cv)
+    e.load_received_public_key_der(data)
+    return e.public_key
+
+
 # ====================================================================== the check
 def run(tier):
     import multiprocessing as mp
@@ -611,6 +850,9 @@ def run(tier):
         pool = ctx.Pool(8)
         tiny_async = pool.map_async(_tiny_job, [(nm, tier, "c17/" + nm) for nm in prime_curves + ["TH2"]])
         ora_async = pool.map_async(_oracle_curve, [(i, tier, wd) for i in range(17)], chunksize=1)
+        hpool = ctx.Pool(4, maxtasksperchild=1)          # histories: each in a fresh process of its own
+        thist_async = hpool.map_async(_tiny_history, [(tier, 0), (tier, 1)], chunksize=1)
+        ohist_async = hpool.map_async(_oracle_history, [(tier, wd, 0), (tier, wd, 1)], chunksize=1)
 
         def mc(job):
             nm, invs, tag = job
@@ -635,8 +877,23 @@ def run(tier):
         try:
             tiny = dict(tiny_async.get(timeout=1500))
             ora = ora_async.get(timeout=2400)
+            thist = thist_async.get(timeout=1500)
+            ora = list(ora) + list(ohist_async.get(timeout=2400))
         finally:
             pool.terminate()
+            hpool.terminate()
+        nhist = 0
+        for h in thist:
+            for nm, evs in h.items():
+                for e in evs:
+                    e["tid"] = tiny[nm][-1]["tid"] + 1
+                    e["_hist"] = 1
+                    tiny[nm].append(e)
+                    nhist += 1
+        rep.cov["parts"]["histories"] = {"tiny_curve_history_events": nhist,
+                                         "what": "single fresh processes, both orders: all (x, y) as public keys on T11 and TH2 (same field) in alternation; "
+                                                 "ECDH objects whose curve / keys change during their life (TLC: secret only if all three curves agree); "
+                                                 "shipped curves: a point validated on A offered to B (same field size), k*G on A, B, A, ECDH curve changes"}
 
         # ---------------------------------------------------------------- canaries (binding self-test)
         canaries = {}
